@@ -161,7 +161,7 @@ func genMulti(c *core.Ctx) int {
 	} {
 		m("close", s)
 	}
-	for i, k := 0, c.Scale(10, 200); i < k; i++ {
+	for i, k := 0, c.Scale(6, 200); i < k; i++ {
 		m("close-random", genMultiScenario(c, true))
 	}
 	for i, k := 0, c.Scale(150, 2000); i < k; i++ {
